@@ -968,7 +968,12 @@ impl<W: Word, B: AsRef<[W]>> crate::traits::UncheckedIterator
         if self.fill >= bit_width {
             self.fill -= bit_width;
             let res = self.window & self.vec.mask;
-            self.window >>= bit_width;
+            // A shift by W::BITS (full-width fields) would overflow
+            self.window = if bit_width == W::BITS {
+                W::ZERO
+            } else {
+                self.window >> bit_width
+            };
             return res;
         }
 
@@ -977,7 +982,12 @@ impl<W: Word, B: AsRef<[W]>> crate::traits::UncheckedIterator
         self.window = *self.vec.bits.as_ref().get_unchecked(self.word_index);
         let res = (res | (self.window << self.fill)) & self.vec.mask;
         let used = bit_width - self.fill;
-        self.window >>= used;
+        // A shift by W::BITS (full-width fields) would overflow
+        self.window = if used == W::BITS {
+            W::ZERO
+        } else {
+            self.window >> used
+        };
         self.fill = W::BITS - used;
         res
     }
